@@ -78,6 +78,7 @@ from vgi_rpc.rpc._wire import (
     _deserialize_params,
     _drain_stream,
     _flush_collector,
+    _MissingMethodError,
     _read_request,
     _validate_call_signature,
     _validate_params,
@@ -418,6 +419,27 @@ def _maybe_attach_shm(
         _logger.warning("Ignoring malformed SHM metadata: name=%r, size=%r", shm_name_bytes, shm_size_bytes)
         return None
     return ShmSegment.attach(shm_name, shm_size, track=False)
+
+
+class _ConnectionState:
+    """Per-connection lock-step bookkeeping for :meth:`RpcServer.serve`.
+
+    A stream call can be rejected before its input stream is opened (unknown
+    method, version or parameter rejection, ``init`` raising).  When the
+    method has no header the client only learns of the rejection *after* it
+    has written its input stream (on the first tick / exchange, or on
+    ``close()`` / ``cancel()``), so that stream arrives where the next request
+    is expected.  ``stray_input_possible`` records that the next incoming
+    stream may be such an input stream; one without a ``vgi_rpc.method`` key
+    (or with no batch at all) is then consumed silently instead of being
+    answered — answering it would shift every later response by one call, and
+    an empty one would end the serve loop.
+    """
+
+    __slots__ = ("stray_input_possible",)
+
+    def __init__(self) -> None:
+        self.stray_input_possible = False
 
 
 class _ConnectionShm:
@@ -803,10 +825,11 @@ class RpcServer:
         # the connection so later offset-only request/data batches resolve
         # against it (see _ConnectionShm).
         conn_shm = _ConnectionShm()
+        conn_state = _ConnectionState()
         try:
             while True:
                 try:
-                    self.serve_one(transport, shm_cache=conn_shm)
+                    self.serve_one(transport, shm_cache=conn_shm, conn_state=conn_state)
                 except (EOFError, StopIteration):
                     break
                 except (BrokenPipeError, ConnectionResetError, ConnectionAbortedError):
@@ -826,7 +849,13 @@ class RpcServer:
         finally:
             conn_shm.close()
 
-    def serve_one(self, transport: RpcTransport, *, shm_cache: _ConnectionShm | None = None) -> None:
+    def serve_one(
+        self,
+        transport: RpcTransport,
+        *,
+        shm_cache: _ConnectionShm | None = None,
+        conn_state: _ConnectionState | None = None,
+    ) -> None:
         """Handle a single RPC call (any method type) over the given transport.
 
         Protocol-level errors (``VersionError``, ``RpcError`` from missing
@@ -840,6 +869,8 @@ class RpcServer:
                 :meth:`serve`. When ``None`` (e.g. a direct ``serve_one``
                 call), a client-advertised segment is attached and detached
                 per call instead of being cached across requests.
+            conn_state: Per-connection lock-step bookkeeping supplied by
+                :meth:`serve` (see :class:`_ConnectionState`).
 
         Raises:
             pa.ArrowInvalid: If the incoming data is not valid Arrow IPC.
@@ -854,6 +885,9 @@ class RpcServer:
         rb_token = _current_request_batch.set(None)
         sid_token = _current_stream_id.set("")
         dynamic_shm: ShmSegment | None = None
+        stray_input_possible = conn_state is not None and conn_state.stray_input_possible
+        if conn_state is not None:
+            conn_state.stray_input_possible = False
         try:
             try:
                 # A client may route the (single-row) request batch through the
@@ -870,11 +904,21 @@ class RpcServer:
                     shm=static_shm or cached_shm,
                     attach_shm=lambda md: _maybe_attach_shm(md, self._transport_kind),
                 )
+            except StopIteration:
+                if stray_input_possible:
+                    # Empty input stream (close() before the first tick) of a
+                    # stream call that was rejected before its stream opened.
+                    return
+                raise
             except pa.ArrowInvalid as exc:
                 with contextlib.suppress(BrokenPipeError, OSError):
                     _write_error_stream(transport.writer, _EMPTY_SCHEMA, exc, server_id=self._server_id)
                 raise
             except (VersionError, RpcError) as exc:
+                if stray_input_possible and isinstance(exc, _MissingMethodError):
+                    # Input stream of a stream call that was rejected before
+                    # its stream opened; it answers no call.
+                    return
                 with contextlib.suppress(BrokenPipeError, OSError):
                     _write_error_stream(transport.writer, _EMPTY_SCHEMA, exc, server_id=self._server_id)
                 return
@@ -917,6 +961,9 @@ class RpcServer:
                     MethodNotImplementedError(f"Unknown method: '{method_name}'. Available methods: {available}"),
                     server_id=self._server_id,
                 )
+                # The caller may believe this is a header-less stream method.
+                if conn_state is not None:
+                    conn_state.stray_input_possible = True
                 return
 
             # Application-protocol-version gate. Fires only when the Protocol
@@ -931,6 +978,8 @@ class RpcServer:
                 except ProtocolVersionError as exc:
                     err_schema = info.result_schema if info.method_type == MethodType.UNARY else _EMPTY_SCHEMA
                     _write_error_stream(transport.writer, err_schema, exc, server_id=self._server_id)
+                    if conn_state is not None and info.method_type == MethodType.STREAM and info.header_type is None:
+                        conn_state.stray_input_possible = True
                     return
 
             # Request validation. Both steps are answered with a typed error
@@ -954,6 +1003,8 @@ class RpcServer:
             except Exception as exc:
                 err_schema = info.result_schema if info.method_type == MethodType.UNARY else _EMPTY_SCHEMA
                 _write_error_stream(transport.writer, err_schema, exc, server_id=self._server_id)
+                if conn_state is not None and info.method_type == MethodType.STREAM and info.header_type is None:
+                    conn_state.stray_input_possible = True
                 return
 
             # Determine the SHM segment for this call's data plane (resolving
@@ -986,7 +1037,9 @@ class RpcServer:
             if info.method_type == MethodType.UNARY:
                 self._serve_unary(transport, info, kwargs, stats=stats, shm=shm)
             elif info.method_type == MethodType.STREAM:
-                self._serve_stream(transport, info, kwargs, stats=stats, shm=shm)
+                opened = self._serve_stream(transport, info, kwargs, stats=stats, shm=shm)
+                if not opened and conn_state is not None and info.header_type is None:
+                    conn_state.stray_input_possible = True
         finally:
             if dynamic_shm is not None:
                 with contextlib.suppress(BufferError):
@@ -1107,7 +1160,8 @@ class RpcServer:
         *,
         stats: CallStatistics | None = None,
         shm: ShmSegment | None = None,
-    ) -> None:
+    ) -> bool:
+        """Serve one stream call; return whether the client's input stream was opened (and consumed)."""
         _current_stream_id.set(uuid.uuid4().hex)
         sink, auth, transport_md = self._prepare_method_call(info, kwargs)
         protocol_name = self.protocol_name
@@ -1129,6 +1183,13 @@ class RpcServer:
         # the outer one handles streaming errors.  Only one access log fires per call.
         try:
             result: Stream[StreamState, Any] = getattr(self._impl, info.name)(**kwargs)
+            # Implementation faults that would otherwise escape the serve loop
+            # (and leave the client waiting forever) are reported like any
+            # other initialization error.
+            if not isinstance(result, Stream):
+                raise TypeError(f"Method '{info.name}' must return a Stream, got {type(result).__name__}")
+            if info.header_type is not None and result.header is None:
+                raise TypeError(f"Method '{info.name}' declares header type but returned header=None")
         except Exception as exc:
             _hook_exc = exc
             status = "error"
@@ -1136,7 +1197,7 @@ class RpcServer:
             error_message = str(exc)
             with contextlib.suppress(BrokenPipeError, OSError):
                 _write_error_stream(transport.writer, _EMPTY_SCHEMA, exc, server_id=self._server_id)
-            return
+            return False
         finally:
             if status == "error":
                 duration_ms = (time.monotonic() - start) * 1000
@@ -1299,3 +1360,4 @@ class RpcServer:
         # Drain remaining input so transport is clean for next request
         with contextlib.suppress(pa.ArrowInvalid, OSError):
             _drain_stream(input_reader)
+        return True
